@@ -474,6 +474,8 @@ def shape_ok(model, sd, params):
     try:
         mods = []
         for oi, op in enumerate(sd["ops"]):
+            if op["k"] == "insfn":
+                continue
             for key, off, length, op2 in driver.expand_op(m, op):
                 sp = m.spans[key]
                 mods.append(((m.section_order.index(sp.sect), m.sections[sp.sect].index(sp.unit), sp.start), off, oi, op2, length, key))
@@ -529,6 +531,16 @@ def _gen_session(rng, model, params, index):
     spans = [sp for sp in spans if not (set(sp.tok_ids) & padtoks)]
     if not spans or rng.random() < params.get("empty_session_p", 0.05):
         return {"ops": [], "reg_order": []}
+    if rng.random() < params.get("insfn_p", 0.08) and params.get("_fmt") and ".text" in model.sections:
+        for k in range(rng.choice([1, 1, 2])):
+            nm = f"nf{index}_{k}"
+            body = gen_patch(rng, model, params, wl, ids, allow_cf=False)
+            body["lines"] = [l for l in body["lines"] if "label" not in l] or [{"v": "nop"}]
+            if wl["entries"] and rng.random() < 0.4:
+                body["lines"].append({"v": "call", "t": rng.choice(wl["entries"])})
+            body["lines"].append({"v": "ret"})
+            ops.append({"k": "insfn", "name": nm, "patch": body})
+            wl["entries"] = wl["entries"] + [nm]
     nspans = min(len(spans), rng.choices([1, 2, 3, 4, 6], weights=[30, 30, 20, 10, 10])[0])
     # bias: neighbouring blocks
     start = rng.randrange(len(spans))
@@ -614,6 +626,8 @@ def _op_func(model, op):
     from . import driver
 
     try:
+        if op["k"] == "insfn":
+            return None
         if op["k"] == "delfn":
             return op["func"]
         key, _, _ = driver.resolve_op(model, op)
@@ -632,7 +646,7 @@ def _avoid_ambiguous(model, ops):
 
     loc = {}
     for oi, op in enumerate(ops):
-        if op["k"] == "delfn":
+        if op["k"] in ("delfn", "insfn"):
             continue
         try:
             key, off, length = driver.resolve_op(model, op)
